@@ -1,17 +1,6 @@
-"""C09 - any editing history leaves a coherent graph.  (E1 obligations are added in vf/props/c09 as the
-heap engine grows; the bounded lockstep exploration below is the stand-in and is never counted as proved.)"""
-import time
-
-from ..core import Report
-from ..e3 import history
+"""C09 - see vf/props/graphprop.py and DESIGN.md section 4."""
+from . import graphprop
 
 
 def run(tier, seed):
-    t0 = time.time()
-    rep = Report("C09", tier, seed)
-    rep.level = "exploration"
-    history.run_histories(rep, "C09", tier, seed, ("view-matches-reference", "coherent"), with_queries=True)
-    rep.rule = ("lockstep execution of the real classes and the plain reference model: breadth-first over a menu of well- and ill-formed requests "
-                "from 3 start states per class + random walks; distinct_nontrivial = distinct (class, start, history) states visited")
-    rep.assumptions = ["bounded: universe of 4 atom identifiers, depth/walk bounds as in the rule"]
-    return rep, t0
+    return graphprop.run("C09", tier, seed)
